@@ -172,6 +172,18 @@ def f_newton(mi):
     return alg, lambda: [x], lambda: False
 
 
+def f_newton_bt(mi):
+    """Backtracking line search engaged: f = sum sqrt(1 + x^2) from |x| > 1, where the full Newton step (x -> -x^3)
+    is rejected several times per update."""
+    import sigpy as sp
+    x = np.array([3.0, -2.0, 1.5])
+    f = lambda v: float(np.sum(np.sqrt(1 + v ** 2)))  # noqa
+    gradf = lambda v: v / np.sqrt(1 + v ** 2)  # noqa
+    inv_hessf = lambda v: (lambda g: g * (1 + v ** 2) ** 1.5)  # noqa
+    alg = sp.alg.NewtonsMethod(gradf, inv_hessf, x, beta=0.5, f=f, max_iter=mi, tol=0)
+    return alg, lambda: [x], lambda: False
+
+
 def f_gs(mi):
     import sigpy as sp
     n = 3
@@ -198,6 +210,7 @@ FACTORIES = {
     "ADMM": f_admm,
     "SDMM": f_sdmm,
     "NewtonsMethod": f_newton,
+    "NewtonsMethod.backtracking": f_newton_bt,
     "GerchbergSaxton": f_gs,
 }
 
@@ -274,7 +287,7 @@ def gen_cases(tier, seed):
             for theta in (1, 0.5, 0):
                 for fc in ("l2", "l1"):
                     cases.append(dict(kind="early-alg", solver="pdhg", prox=prox, sigma=sigma, theta=theta, fc=fc))
-    for name in ("ConjugateGradient", "NewtonsMethod", "GradientMethod", "GradientMethod.accel.box", "GradientMethod.plain",
+    for name in ("ConjugateGradient", "NewtonsMethod", "NewtonsMethod.backtracking", "GradientMethod", "GradientMethod.accel.box", "GradientMethod.plain",
                  "AltMin", "ADMM", "AugmentedLagrangianMethod", "GerchbergSaxton", "PowerMethod"):
         cases.append(dict(kind="early-alg", solver=name))
     for name in sorted(APPS):
